@@ -167,8 +167,8 @@ func genCases(kind, tier string, seed uint64, outPath string) {
 	switch kind {
 	case "c06":
 		enumMax := 400
-		nRandom := 500
-		nError := 90
+		nRandom := 460
+		nError := 50
 		if tier == "thorough" {
 			enumMax = 20000
 			nRandom = 8000
@@ -183,7 +183,7 @@ func genCases(kind, tier string, seed uint64, outPath string) {
 			emit("atpclient", s, choicesNode(r, 60+40*n))
 		}
 		// error fan-outs: the fixed small ones several times (different random schedules), then generated ones
-		for rep := 0; rep < 6; rep++ {
+		for rep := 0; rep < 3; rep++ {
 			for _, s := range fixedError() {
 				emit("atpclient", s, choicesNode(r, 140))
 			}
@@ -195,7 +195,7 @@ func genCases(kind, tier string, seed uint64, outPath string) {
 		}
 	case "c06x": // sessions for the search on the implementation
 		nSess := 14
-		nErr, nReuse := 6, 10
+		nErr, nReuse := 4, 6
 		if tier == "thorough" {
 			nSess = 80
 			nErr, nReuse = 40, 60
@@ -214,14 +214,14 @@ func genCases(kind, tier string, seed uint64, outPath string) {
 		}
 		// error fan-outs and re-used run ids
 		for _, s := range fixedError() {
-			emit("atpexplore", s, sx.L(sx.A("delay2"), sx.I(150), sx.I(int64(r.Intn(1<<30)))))
+			emit("atpexplore", s, sx.L(sx.A("delay2"), sx.I(60), sx.I(int64(r.Intn(1<<30)))))
 		}
 		for i := 0; i < nErr; i++ {
 			s := errorSession(r, 2+r.Intn(3), r.Intn(2) == 0)
 			emit("atpexplore", s, sx.L(sx.A("random"), sx.I(int64(r.Intn(1<<30))), sx.I(20)))
 		}
 		for _, s := range fixedReuse() {
-			emit("atpexplore", s, sx.L(sx.A("delay2"), sx.I(150), sx.I(int64(r.Intn(1<<30)))))
+			emit("atpexplore", s, sx.L(sx.A("delay2"), sx.I(60), sx.I(int64(r.Intn(1<<30)))))
 		}
 		for i := 0; i < nReuse; i++ {
 			s := reuseSession(r, 2+r.Intn(3), r.Intn(2) == 0)
